@@ -2,11 +2,13 @@ import sys,json; sys.path.insert(0,'/verif')
 from verif import compile as C, netsim, debug, netgen
 C.bootstrap()
 rec=json.load(open(sys.argv[1]))['case']
+ONLY=int(sys.argv[2]) if len(sys.argv)>2 else None
 def task(_):
     res=netsim.run_recipe(rec['recipe'],rec['opts'],rec['seed'],2,False)
     print(res['status'])
     print(debug.dump_model(res['model'],res['plan'].offsets))
     for oi,ent in res['plan'].programs.items():
+        if ONLY is not None and oi!=ONLY: continue
         print('--- ethos-u op',oi,'uid_base',ent['uid_base']); print(debug.dump_program(ent['prep'].prog))
     for v in res['viol'][:8]: print(v)
     print('dead',res['dead_stores'][:3])
